@@ -287,6 +287,7 @@ RESET_TIMER:
 			// Pre-Go 1.23: Reset does not drain the channel;
 			// callers must drain at the goto-site before arriving here.
 			timeout.Reset(time.Until(trd))
+			c = timeout.C // re-enable the select case: it was disabled if the deadline had been cleared meanwhile
 		}
 	} else if timeout != nil {
 		timeout.Stop()
@@ -349,6 +350,9 @@ RESET_TIMER:
 				}
 				goto RESET_TIMER
 			}
+			// this call started without a deadline, but SetReadDeadline may have
+			// set one while we were blocked: re-evaluate it as well
+			goto RESET_TIMER
 		case <-c:
 			return 0, errors.WithStack(errTimeout)
 		case <-s.chSocketReadError:
@@ -377,6 +381,7 @@ RESET_TIMER:
 			// Pre-Go 1.23: Reset does not drain the channel;
 			// callers must drain at the goto-site before arriving here.
 			timeout.Reset(time.Until(twd))
+			c = timeout.C // re-enable the select case: it was disabled if the deadline had been cleared meanwhile
 		}
 	} else if timeout != nil {
 		timeout.Stop()
@@ -440,6 +445,9 @@ RESET_TIMER:
 				}
 				goto RESET_TIMER
 			}
+			// this call started without a deadline, but SetWriteDeadline may have
+			// set one while we were blocked: re-evaluate it as well
+			goto RESET_TIMER
 		case <-c:
 			return 0, errors.WithStack(errTimeout)
 		case <-s.chSocketWriteError:
